@@ -193,6 +193,24 @@ func contentTokens(text string) ([]string, int) {
 		}
 		i = j - 1
 	}
+	// innermost[i]: the innermost bracket that is open at token i ("" at top level)
+	innermost := make([]string, len(toks))
+	{
+		var stack []string
+		for i, t := range toks {
+			switch t.Text {
+			case "(", "[", "{":
+				stack = append(stack, t.Text)
+			case ")", "]", "}":
+				if len(stack) > 0 {
+					stack = stack[:len(stack)-1]
+				}
+			}
+			if len(stack) > 0 {
+				innermost[i] = stack[len(stack)-1]
+			}
+		}
+	}
 	for i, t := range toks {
 		if drop[i] {
 			continue
@@ -240,7 +258,7 @@ func contentTokens(text string) ([]string, int) {
 				// a reserved word used as a schema name (property key after '.', label after ':', map key before ':')
 				// is a name: n.`match` and n.match are the same text
 				mapSep := func(j int) bool { // is the ':' at j a map key separator ({k: v, k2: v2})?
-					return j >= 2 && toks[j].Text == ":" && isName(j-1) && (toks[j-2].Text == "{" || toks[j-2].Text == ",")
+					return j >= 2 && toks[j].Text == ":" && isName(j-1) && (toks[j-2].Text == "{" || toks[j-2].Text == ",") && innermost[j] == "{"
 				}
 				if i > 0 && (toks[i-1].Text == "." || toks[i-1].Text == "|" || (toks[i-1].Text == ":" && !mapSep(i-1))) || (i+1 < len(toks) && mapSep(i+1)) {
 					out = append(out, "id:"+t.Text)
@@ -582,6 +600,8 @@ func genSynonym(t *rapid.T) Case {
 				long = strings.ToUpper(long)
 			}
 			tk.Text = long
+		case isKw && (k == "count" || k == "filter" || k == "extract" || k == "any" || k == "none" || k == "single"):
+			// non-reserved keyword tokens may be used as symbolic names anywhere (RETURN x AS count): never case-flipped
 		case isKw && i+1 < len(toks) && toks[i+1].Text == "(":
 			// a keyword token in function-name position (count(…), any(…)) is a name: its spelling is kept in the model
 		case isKw && i > 0 && (toks[i-1].Text == "." || toks[i-1].Text == ":" || toks[i-1].Text == "|"):
